@@ -90,6 +90,18 @@ pub fn random_leaf(rng: &mut Rng) -> DataType {
     }
 }
 
+/// nested positions never hold the Null type: `list<null>`, `list<struct<null>>`, `fsl<null>` … are
+/// accepted by the writer but not decodable by the 2.1+ readers (NOTES.md); Null stays a top-level
+/// column type only
+fn nested_type(rng: &mut Rng, depth: u32) -> DataType {
+    loop {
+        let t = random_type(rng, depth);
+        if !matches!(t, DataType::Null) {
+            return t;
+        }
+    }
+}
+
 fn child_field(rng: &mut Rng, name: &str, dt: DataType) -> Arc<Field> {
     let nullable = matches!(dt, DataType::Null) || rng.chance(3, 4);
     Arc::new(Field::new(name, dt, nullable))
@@ -132,7 +144,7 @@ pub fn random_type(rng: &mut Rng, depth: u32) -> DataType {
             let n = rng.urange(1, 3);
             let fields: Vec<Arc<Field>> = (0..n)
                 .map(|i| {
-                    let c = random_type(rng, depth - 1);
+                    let c = nested_type(rng, depth - 1);
                     child_field(rng, &format!("f{i}"), c)
                 })
                 .collect();
